@@ -9,7 +9,7 @@ import (
 )
 
 func init() {
-	register(&PropCheck{ID: "C17", Pkgs: []string{"./dns", "./cache"}, Run: runC17})
+	register(&PropCheck{ID: "C17", Pkgs: []string{"./dns", "./cache"}, Run: runC17, KeepCalls: []string{"dns.Resolver.sendQueries", "dns.Resolver.sendQueriesUDP", "dns.Resolver.sendQueriesTCP", "dns.Resolver.doTCP", "dns.resultBuilder.parseMsg", "dns.resultBuilder.isDone"}})
 }
 
 func runC17(p *Prog, r *Report) {
@@ -95,7 +95,7 @@ func c17R1(p *Prog, r *Report) {
 		r.Check(okMsg, rule, "dns.(*Resolver).sendQueriesUDP:parses-unpacked-payload"+sfx, parse.Pos(), "the parsed message is buf[payloadStart : payloadStart+payloadLength] of this unpack", "the parser is given something other than exactly the unpacked payload")
 	}
 	// parseMsg
-	pm := p.Func("dns", "resultBuilder", "parseMsg")
+	pm := p.Inlined(p.Func("dns", "resultBuilder", "parseMsg"))
 	pinfo := pm.Info()
 	recv := pm.RecvObj()
 	var idEdges = map[int64][]Edge{}
@@ -356,7 +356,7 @@ func c17R3(p *Prog, r *Report) {
 		Fields:       map[string]map[string]bool{"Resolver": {"cache": true}},
 		NoLockNeeded: map[string]string{"dns.NewResolver": "object under construction"}}
 	runGuard(p, r, spec)
-	lk := p.Func("dns", "Resolver", "Lookup")
+	lk := p.Inlined(p.Func("dns", "Resolver", "Lookup"))
 	info := lk.Info()
 	var get, set, sq *CallSite
 	for _, cs := range lk.AllCalls() {
@@ -379,7 +379,7 @@ func c17R3(p *Prog, r *Report) {
 	}
 	okObj := get.ResultVar(1)
 	resObj := get.ResultVar(0)
-	okT := lk.TestEdges(func(e ast.Expr) bool { return objOf(info, e) == okObj }, WantTrue)
+	okT := lk.TestEdges(func(e ast.Expr) bool { return lk.IsCopyOf(e, okObj) }, WantTrue)
 	var freshT []Edge
 	for _, v := range lk.G.V {
 		if v.Kind == VCond && strings.HasSuffix(exprStr(v.Node), ".HasExpired()") {
@@ -396,7 +396,7 @@ func c17R3(p *Prog, r *Report) {
 			continue
 		}
 		rs := lk.G.V[ret].Node.(*ast.ReturnStmt)
-		r.Check(lk.G.EdgeDominates(okT, ret) && lk.G.EdgeDominates(freshT, ret) && objOf(info, rs.Results[0]) == resObj, rule, "dns.(*Resolver).Lookup:cached-only-if-fresh", p.posStr(rs.Pos()), "the cached result is returned without querying only when present and not expired", "a cached result is returned without asking upstream although it is absent or expired")
+		r.Check(lk.G.EdgeDominates(okT, ret) && lk.G.EdgeDominates(freshT, ret) && lk.IsCopyOf(rs.Results[0], resObj), rule, "dns.(*Resolver).Lookup:cached-only-if-fresh", p.posStr(rs.Pos()), "the cached result is returned without querying only when present and not expired", "a cached result is returned without asking upstream although it is absent or expired")
 	}
 	// stale: return result,nil after sq error only on ok edge
 	for _, e := range sq.ResultEdges(-1, WantNonNil) {
@@ -407,7 +407,7 @@ func c17R3(p *Prog, r *Report) {
 			}
 			rs := lk.G.V[ret].Node.(*ast.ReturnStmt)
 			if isNilExpr(info, rs.Results[1]) {
-				r.Check(lk.G.EdgeDominates(okT, ret) && objOf(info, rs.Results[0]) == resObj, rule, "dns.(*Resolver).Lookup:stale-only-if-present", p.posStr(rs.Pos()), "a failed query falls back to the stale entry only if one exists", "a failed query returns success without a cached entry (zero result reported as an answer)")
+				r.Check(lk.G.EdgeDominates(okT, ret) && lk.IsCopyOf(rs.Results[0], resObj), rule, "dns.(*Resolver).Lookup:stale-only-if-present", p.posStr(rs.Pos()), "a failed query falls back to the stale entry only if one exists", "a failed query returns success without a cached entry (zero result reported as an answer)")
 			}
 		}
 	}
@@ -732,7 +732,7 @@ func c17R6(p *Prog, r *Report) {
 		}
 		return true
 	})
-	pm := p.Func("dns", "resultBuilder", "parseMsg")
+	pm := p.Inlined(p.Func("dns", "resultBuilder", "parseMsg"))
 	pinfo := pm.Info()
 	reset := map[int64]string{}
 	ast.Inspect(pm.Body, func(n ast.Node) bool {
